@@ -243,6 +243,10 @@ func runA6(c *core.Ctx) {
 				c.Undecided(fn+"/alias", fd.Pos(), "cannot enumerate emitted sequences")
 				continue
 			}
+			if anyTrunc(seqs) {
+				c.Undecided(fn+"/alias", fd.Pos(), "a helper could not be inlined within the path budget")
+				continue
+			}
 			nsrc, nsink := 0, 0
 			bad := map[string]token.Pos{}
 			for _, sq := range seqs {
